@@ -475,7 +475,7 @@ class BuiltIn(Mapping[str, object]):
             return datetime.datetime.now()
         if key == "today":
             return datetime.date.today()
-        raise KeyError(str(key))
+        raise KeyError(key)
 
     def __len__(self) -> int:
         return 2
